@@ -2,11 +2,14 @@ package checks
 
 import (
 	"bytes"
+	"errors"
 	"fmt"
+	"io"
 	"reflect"
 	"regexp"
 	"sort"
 	"strings"
+	"testing/iotest"
 
 	"github.com/kstenerud/go-concise-encoding/ce"
 	"github.com/kstenerud/go-concise-encoding/configuration"
@@ -186,6 +189,33 @@ func c16RefDoc(c *fw.Ctx, cte bool) ([]byte, string) {
 	return doc, desc
 }
 
+// c16FinalErrReader returns all of its data in one Read, together with a non-EOF error.
+type c16FinalErrReader struct {
+	data []byte
+	done bool
+}
+
+func (r *c16FinalErrReader) Read(p []byte) (int, error) {
+	if r.done {
+		return 0, errors.New("c16: source failed")
+	}
+	n := copy(p, r.data)
+	r.data = r.data[n:]
+	if len(r.data) == 0 {
+		r.done = true
+		return n, errors.New("c16: source failed")
+	}
+	return n, nil
+}
+
+// c16Trailer: a stray byte after a complete document (rejected while the last delivered bytes are processed).
+func c16Trailer(cte bool) []byte {
+	if cte {
+		return []byte(" ]")
+	}
+	return []byte{0x9b}
+}
+
 func c16Cfg(c *fw.Ctx) (*configuration.Configuration, string) {
 	cfg := configuration.New()
 	desc := ""
@@ -296,10 +326,33 @@ func runC16(c *fw.Ctx, idx int) {
 		}
 		return o
 	}
+	// readerMode (chosen per operation, the same for the reused and the fresh instance): 0 = the *FromDocument / DecodeDocument
+	// entry point; otherwise the reader-based entry point over 1 = bytes.Reader, 2 = a reader that returns its last bytes
+	// together with io.EOF, 3 = one byte per Read, 4 = half reads, 5 = last bytes together with a non-EOF error.
+	readerMode := 0
+	mkReader := func(doc []byte) io.Reader {
+		switch readerMode {
+		case 2:
+			return iotest.DataErrReader(bytes.NewReader(doc))
+		case 3:
+			return iotest.OneByteReader(bytes.NewReader(doc))
+		case 4:
+			return iotest.HalfReader(bytes.NewReader(doc))
+		case 5:
+			return &c16FinalErrReader{data: doc}
+		}
+		return bytes.NewReader(doc)
+	}
 	unmarshalWith := func(uu ce.Unmarshaler, doc []byte, tmpl interface{}) c16Outcome {
 		var out interface{}
 		var err error
-		p, _ := fw.Guard(func() { out, err = uu.UnmarshalFromDocument(doc, tmpl) })
+		p, _ := fw.Guard(func() {
+			if readerMode == 0 {
+				out, err = uu.UnmarshalFromDocument(doc, tmpl)
+			} else {
+				out, err = uu.Unmarshal(mkReader(doc), tmpl)
+			}
+		})
 		o := c16Outcome{}
 		if p != nil {
 			o.Err = "ESCAPED PANIC: " + fmt.Sprint(p)
@@ -328,7 +381,13 @@ func runC16(c *fw.Ctx, idx int) {
 	decodeWith := func(d ce.Decoder, doc []byte) c16Outcome {
 		rec := &ev.Recorder{}
 		var err error
-		p, _ := fw.Guard(func() { err = d.DecodeDocument(doc, rules.NewRules(rec, c16Clone(cfg))) })
+		p, _ := fw.Guard(func() {
+			if readerMode == 0 {
+				err = d.DecodeDocument(doc, rules.NewRules(rec, c16Clone(cfg)))
+			} else {
+				err = d.Decode(mkReader(doc), rules.NewRules(rec, c16Clone(cfg)))
+			}
+		})
 		o := c16Outcome{Out: ev.LogString(rec.Log)}
 		if p != nil {
 			o.Err = "ESCAPED PANIC: " + fmt.Sprint(p)
@@ -397,6 +456,14 @@ func runC16(c *fw.Ctx, idx int) {
 			case 2:
 				tmpl = nil
 				d = "untyped-" + d
+			case 3:
+				doc = append(append([]byte{}, doc...), c16Trailer(cte)...)
+				d = "trailing-garbage-" + d
+			}
+			readerMode = 0
+			if c.Rng.Intn(2) == 0 {
+				readerMode = 1 + c.Rng.Intn(5)
+				d = fmt.Sprintf("reader%d-%s", readerMode, d)
 			}
 			desc = d
 			c.Note("C16 unmarshaler %s op%d %s %s", codec, i, d, docString(doc, cte))
@@ -460,6 +527,14 @@ func runC16(c *fw.Ctx, idx int) {
 			case 1:
 				doc = mutateBytes(c, doc)
 				d = "mutated-" + d
+			case 2:
+				doc = append(append([]byte{}, doc...), c16Trailer(cte)...)
+				d = "trailing-garbage-" + d
+			}
+			readerMode = 0
+			if c.Rng.Intn(2) == 0 {
+				readerMode = 1 + c.Rng.Intn(5)
+				d = fmt.Sprintf("reader%d-%s", readerMode, d)
 			}
 			desc = d
 			c.Note("C16 decoder %s op%d %s %s", codec, i, d, docString(doc, cte))
